@@ -5,7 +5,7 @@ statement. One `poll` is the loop `iter` run until it returns; `fuel` bounds the
 (`c09_pubsub_terminates` shows a fuel linear in the available data always suffices).
 
 Ghost state: `accepted` (items taken from publisher streams, in the order taken), `src` (which stream each came
-from), `evicted` (sinks removed because they failed), `regAt` inside each sink.
+from), `scripts` (what each publisher was going to send, recorded at adoption), `evicted` (sinks removed because they failed), `regAt` inside each sink.
 -/
 namespace Selium.Route
 open Selium.Sink
@@ -26,6 +26,7 @@ structure PS (α : Type) where
   -- ghost
   accepted : List α := []
   src : List Nat := []
+  scripts : List (List (SAns α)) := []   -- what each publisher stream (by id) held when it was adopted
   evicted : List (Child α) := []
   handleReg : Bool := false        -- the registration channel holds the task's waker
   deriving Repr
@@ -69,7 +70,8 @@ def flushSinks (s : PS α) : PollRes × PS α × List (Ev α) :=
 def adopt (s : PS α) (sock : Sock α) (q : List (Sock α)) : PS α :=
   match sock with
   | .stream sc =>
-    { s with queue := q, streams := s.streams ++ [{ id := s.nextStream, script := sc }], nextStream := s.nextStream + 1 }
+    { s with queue := q, streams := s.streams ++ [{ id := s.nextStream, script := sc }], nextStream := s.nextStream + 1,
+             scripts := s.scripts ++ [sc] }
   | .sink c =>
     { s with queue := q, sinks := insert s.sinks { c with id := s.nextSink, regAt := s.accepted.length, got := [], flushed := 0 },
              nextSink := s.nextSink + 1 }
